@@ -431,6 +431,40 @@ impl DS {
         sym
     }
 
+    /// the same symbol as a PartialDSym assembled with the public `from_fields`, with the 2-orbits
+    /// numbered in REVERSE order of what the crate's own constructors produce (a consistent numbering:
+    /// the orbit tables are permuted accordingly)
+    pub fn to_partial_from_fields_reversed(&self, set_count: usize) -> PartialDSym {
+        let set = SimpleDSet::from_partial(self.to_partial_dset(), set_count);
+        // own orbit walk, in the crate's order: index by index, chambers ascending
+        let mut index = vec![vec![0usize; self.size + 1]; self.dim];
+        let mut rs: Vec<usize> = vec![];
+        let mut vs: Vec<usize> = vec![];
+        for i in 0..self.dim {
+            let mut seen = vec![false; self.size + 1];
+            for d in 1..=self.size {
+                if !seen[d] {
+                    let nr = rs.len();
+                    for e in self.orbit2(i, i + 1, d) {
+                        seen[e] = true;
+                        index[i][e] = nr;
+                    }
+                    rs.push(self.r(i, i + 1, d));
+                    vs.push(self.v[i][d]);
+                }
+            }
+        }
+        let n = rs.len();
+        for i in 0..self.dim {
+            for d in 1..=self.size {
+                index[i][d] = n - 1 - index[i][d];
+            }
+        }
+        rs.reverse();
+        vs.reverse();
+        PartialDSym::from_fields(set, index, rs, vs)
+    }
+
     pub fn to_simple(&self) -> SimpleDSym {
         SimpleDSym::from(self.to_partial())
     }
